@@ -118,6 +118,11 @@ func (c *Chain) onEpochBoundary(ended common.Epoch) {
 	if prev > fin.Epoch && prev-fin.Epoch > sp.MIN_EPOCHS_TO_INACTIVITY_PENALTY {
 		// the fork whose epoch processing applied the leak: the one of the epoch that ended
 		lf := c.forkAtEpoch(cur - 1)
+		if lf == Phase0 && cur >= 2 && c.wrongTargetIncluded[cur-2] > 0 {
+			// the phase0 transition that ended epoch cur-1 ran in a leak and its previous epoch (cur-2) has included votes
+			// with the right source and a non-canonical target
+			c.Stats.Inc("phase0_leak_epochs_with_wrong_target_votes")
+		}
 		c.Stats.Inc("epochs_in_leak")
 		c.Stats.Inc("epochs_in_leak_" + lf.String())
 		c.leakForks[lf] = true
@@ -218,6 +223,9 @@ func (c *Chain) onEpochBoundary(ended common.Epoch) {
 			// computed by the transition that ended cur-1 (an altair+ state) from the active set of epoch cur
 			c.Stats.Inc("sync_period_boundaries_with_active_set_change")
 			c.Stats.Inc("sync_period_boundaries_with_active_set_change_" + c.forkAtEpoch(cur-1).String())
+		}
+		if cur == f && f > 0 && f%sp.EPOCHS_PER_SYNC_COMMITTEE_PERIOD == 0 {
+			c.Stats.Inc("altair_fork_on_sync_period_boundary")
 		}
 		if cur == f && count(f+1) > 0 {
 			// upgrade_to_altair draws both committees from the active set of epoch fork+1
